@@ -34,7 +34,7 @@ def cfgs(bind, daemon=False):
 
 # ---------------------------------------------------------------- old master ---------------------
 
-OLD_EVENTS = [("sig", "USR2"), ("exit-master2", 0), ("exit-master2", 1 << 8), ("sig", "HUP"), ("sig", "WINCH"), ("sig", "TERM"), ("sig", "QUIT"),
+OLD_EVENTS = [("sig", "USR2"), ("exit-master2", 0), ("exit-master2", 1 << 8), ("exit-master2", 3 << 8), ("exit-master2", 4 << 8), ("sig", "HUP"), ("sig", "WINCH"), ("sig", "TERM"), ("sig", "QUIT"),
               ("exit", 0, 9), ("tick",), (("sig", "USR2"), ("sig", "USR2")), (("exit-master2", 0), ("exit", 0, 9)), (("sig", "WINCH"), ("sig", "USR2"))]
 
 
@@ -108,6 +108,10 @@ def old_judge(params, k, o, label=None):
                 pend -= 1
     elif o.end == "exit":
         unlinked = [t for t in k.trace if t[0] == "unlink-socket"]
+        stop_asked = any(t[0] in ("event", "event-coalesced") and t[1] == "sig" and t[2] in ("TERM", "QUIT", "INT") for t in k.trace)
+        worker_boot_failure = any(t[0] == "reaped" and t[2] in (3 << 8, 4 << 8) and any(p.pid == t[1] and p.kind == "worker" for p in k.reaped) for t in k.trace)
+        if not stop_asked and not worker_boot_failure:
+            bad.append(("old:master-exited-unasked" + at, "the old master exited with %r although nobody asked it to stop (a failing NEW master must not take the old one down)" % (o.code,)))
         # was a new master alive when the old one decided whether to unlink (= when it began to stop)?
         m2_alive_at_stop, m2_died_during_stop = _m2_at_stop(k)
         if params["bind"] == "unix" and not m2_died_during_stop:
@@ -188,7 +192,7 @@ def exec_env_check(bind):
 
 # ---------------------------------------------------------------- new master ---------------------
 
-NEW_EVENTS = [("parent-exit",), ("parent-killed",), ("sig", "USR2"), ("sig", "TERM"), ("sig", "QUIT"), ("exit", 0, 9), ("tick",),
+NEW_EVENTS = [("parent-exit",), ("parent-killed",), ("parent-exit-subreaper",), ("sig", "USR2"), ("sig", "TERM"), ("sig", "QUIT"), ("exit", 0, 9), ("tick",),
               (("parent-exit",), ("sig", "USR2")), (("parent-exit",), ("sig", "TERM"))]
 # (HUP to the not-yet-promoted new master is outside the property's quantifier and is not explored: see DESIGN.md, observations)
 OLD_PID, NEW_PID = 100, 200
@@ -218,7 +222,7 @@ def new_judge(params, k, o, label=None):
     cs = [t for t in k.trace if t[0] == "create-sockets"]
     if not cs or cs[0][1] != (7,):
         bad.append(("new:inherited-fds-not-adopted" + at, "create_sockets called with fds %r, GUNICORN_FD=7" % (cs[0][1] if cs else None,)))
-    parent_gone = any(t[0] == "event" and t[1] in ("parent-exit", "parent-killed") for t in k.trace)
+    parent_gone = any(t[0] == "event" and t[1] in ("parent-exit", "parent-killed", "parent-exit-subreaper") for t in k.trace)
     m2_forks = [t for t in k.trace if t[0] == "fork" and t[2] == "master2"]
     if not parent_gone:
         if m2_forks:
@@ -245,7 +249,7 @@ def new_judge(params, k, o, label=None):
         # was the parent alive when the sockets were closed?
         parent_alive_at_stop = True
         for t in k.trace:
-            if t[0] == "event" and t[1] in ("parent-exit", "parent-killed"):
+            if t[0] == "event" and t[1] in ("parent-exit", "parent-killed", "parent-exit-subreaper"):
                 parent_alive_at_stop = False
             if t[0] == "listener-close":
                 break
@@ -274,7 +278,7 @@ def _new_task(t):
         start = 0
         stop = k.script_done_point if k.script_done_point is not None else k.npoints
         for idx in range(start, min(stop, 250)):
-            for ev in (("parent-exit",), ("parent-killed",), ("sig", "USR2"), ("sig", "TERM")):
+            for ev in (("parent-exit",), ("parent-killed",), ("parent-exit-subreaper",), ("sig", "USR2"), ("sig", "TERM")):
                 k2, o2 = new_execute(params, script, inject={idx: ev})
                 out["runs"] += 1
                 label = k2.point_labels[idx] if idx < len(k2.point_labels) else "?"
@@ -492,10 +496,13 @@ def real_cell(cell):
                     v = v or ("old-master-died-on-hup", "old master died after HUP during an upgrade")
             elif step == "usr2-new":
                 os.kill(new, signal.SIGUSR2)
-                time.sleep(1.0)
+                time.sleep(1.5)
                 kids = [p for p, st in rp.proc_children(new) if st != "Z" and rp.proc_children(p)]
                 if old_alive and kids:
                     v = v or ("third-master", "USR2 to the new master while its parent lives started another master")
+                if not old_alive and not kids:
+                    # the promoted master is a full master: a further upgrade must work (the listeners must still be inheritable)
+                    v = v or ("chained-upgrade-failed", "USR2 to the promoted master did not produce a running third-generation master: %s" % s.log_text()[-300:])
                 for p in kids:
                     try:
                         os.kill(p, signal.SIGTERM)
